@@ -177,6 +177,9 @@ structure MSt where
   decs : List MDec := []
   missed : List Nat := []                 -- traces re-buffered after a decision (record forgotten)
   fpos : List Nat := []                   -- traces whose span was dropped without a drop decision
+  cap : Nat := 1                          -- configured kept records per worker (case header)
+  owner : AList Nat Nat := []             -- routing as observed (ext owner)
+  recent : List Nat := []                 -- kept traces, most recently recorded / looked up first
 
 def fail (p sig what : String) : Fail := { prop := p, sig := sig, what := what }
 
@@ -186,6 +189,17 @@ def parseFwd (s : String) : Option (Nat × Nat × String) :=
     | some a, some b => some (a, b, c)
     | _, _ => none
   | _ => none
+
+def MSt.touch (m : MSt) (t : Nat) : MSt := { m with recent := t :: m.recent.filter (· != t) }
+
+/-- a kept record can only have been evicted if at least `cap` other kept traces of the same worker
+were recorded or looked up more recently -/
+def MSt.evictable (m : MSt) (t : Nat) : Bool :=
+  let w := AList.get m.owner t
+  let mine := m.recent.filter fun x => AList.get m.owner x == w
+  match mine.idxOf? t with
+  | some i => i >= m.cap
+  | none => true
 
 def norm1 (n : Nat) : Nat := if n == 0 then 1 else n
 
@@ -226,7 +240,9 @@ def onTook (m : MSt) (entries : String) : MSt :=
   else (entries.splitOn ",").foldl (fun m tok =>
     match tok.splitOn ":" with
     | t :: k :: _ => match t.toNat? with
-      | some t => { m with decs := m.decs ++ [{ trace := t, keep := k == "k", dry := m.dry }] }
+      | some t =>
+        let m := { m with decs := m.decs ++ [{ trace := t, keep := k == "k", dry := m.dry }] }
+        if k == "k" then m.touch t else m
       | none => m
     | _ => m) m
 
@@ -248,7 +264,7 @@ def quiescenceChecks (m : MSt) (bufd : List Nat) : List Fail :=
     (if !m.everWet && nf != sids.length then
       [fail "C05" "C05:span-not-forwarded" s!"dry run: trace {t} had {sids.length} accepted spans, {nf} forwarded"] else [])) []
 
-def collMon (m : MSt) (op : List String) (_ : List (List String)) (obs : Option String) : MSt × List Fail :=
+def collMon (m : MSt) (op : List String) (exts : List (List String)) (obs : Option String) : MSt × List Fail :=
   match op, obs with
   | ["span", t, _, client, _], some o =>
     match t.toNat?, client.toNat? with
@@ -257,11 +273,30 @@ def collMon (m : MSt) (op : List String) (_ : List (List String)) (obs : Option 
       if toks.head? == some "rejected" then (m, []) else
       let sid := m.nspans
       let m := { m with nspans := sid + 1, acc := m.acc ++ [(sid, t, client)] }
+      let m := match (extVal exts "owner" (toString t)).bind String.toNat? with
+        | some w => if (AList.get m.owner t).isNone then { m with owner := AList.put m.owner t w } else m
+        | none => m
       let ds := m.decs.filter (·.trace == t)
       match toks with
       | ["buf", _] =>
-        (if ds.isEmpty then m else { m with missed := t :: m.missed }, [])
-      | ["late", f] => onForwards m "late" none f
+        -- a span of an already decided trace was buffered as a new trace: the record was forgotten.
+        -- With the harness' sizes that is only legitimate for a kept record pushed out of the LRU.
+        match ds.getLast? with
+        | none => (m, [])
+        | some d =>
+          let alreadyMissed := m.missed.contains t
+          let fails :=
+            if alreadyMissed then []
+            else if !d.keep then
+              [fail "C01" "C01:drop-decision-forgotten" s!"span {sid} of dropped trace {t} was buffered as a new trace"]
+            else if !m.evictable t then
+              [fail "C01" "C01:kept-decision-forgotten" s!"span {sid} of kept trace {t} was buffered as a new trace although its record cannot have been evicted (capacity {m.cap})"]
+            else []
+          ({ m with missed := t :: m.missed }, fails)
+      | ["late", f] =>
+        let (m', fs) := onForwards m "late" none f
+        -- served from the kept record (which the lookup makes most recently used) unless marked kept=false
+        (if (parseFwd f).map (·.2.2) != some "0" then m'.touch t else m', fs)
       | ["dropped"] =>
         let remembered := !m.missed.contains t && !m.fpos.contains t
         let fails :=
@@ -303,7 +338,7 @@ def comp : Component OSt MSt where
   step := collStep
   minit := fun args =>
     let dry := (kv args "dry") == some "1"
-    { dry := dry, everDry := dry, everWet := !dry }
+    { dry := dry, everDry := dry, everWet := !dry, cap := ((kv args "cap").bind String.toNat?).getD 1 }
   mon := collMon
 
 def main : IO Unit := do runLoop comp (← IO.getStdin)
